@@ -9,6 +9,8 @@ ill-formed classes and single-token corruptions are executed against the real pa
 from __future__ import annotations
 
 import os
+import tempfile
+import zlib
 
 from antismash.common.hmm_rule_parser import rule_parser as RP
 from antismash.common.hmm_rule_parser.structures import Multipliers
@@ -35,7 +37,7 @@ ASSUMPTIONS = [
 ]
 REQUIRED = ["op:parse-compare", "op:tree-compare", "op:eval-compare", "op:roundtrip", "op:reject-class",
             "op:corruption", "feature:alias-use", "feature:comment", "feature:multi-text", "feature:multiplier",
-            "feature:superiors-transitive", "feature:extenders", "shipped:rules-compared",
+            "feature:superiors-transitive", "feature:extenders", "shipped:rules-compared", "op:create_rules-on-files",
             "corruption:both-reject", "corruption:both-accept"]
 
 CATEGORIES = {"catA", "catB"}
@@ -183,6 +185,8 @@ def gen_file(rng):
 
 
 def parse_real(texts, mult):
+    if len(texts) > 1 and zlib.crc32("".join(texts).encode()) % 3 == 0:
+        return parse_real_files(texts, mult)
     rules = []
     aliases = {}
     for text in texts:
@@ -191,6 +195,30 @@ def parse_real(texts, mult):
         aliases.update(parser.aliases)
         rules = parser.rules
     return rules
+
+
+def parse_real_files(texts, mult):
+    """ the same texts as rule files through the pipeline's own create_rules; files need not end in a newline, and a
+        comment on the last line of a file ends with the file (varied by a checksum of the text) """
+    from antismash.common.hmm_rule_parser.cluster_prediction import create_rules
+    COUNTS["create_rules"] = COUNTS.get("create_rules", 0) + 1
+    with tempfile.TemporaryDirectory(prefix="vf-c02-") as tmp:
+        paths = []
+        for i, text in enumerate(texts):
+            style = zlib.crc32(text.encode()) % 3
+            if style == 1:
+                text = text.rstrip("\n")
+            elif style == 2:
+                text = text.rstrip("\n") + " # a comment on the last line, no newline after it"
+            path = os.path.join(tmp, f"rules{i}.txt")
+            with open(path, "w", encoding="utf-8") as handle:
+                handle.write(text)
+            paths.append(path)
+        return create_rules(paths, set(RG.PROFILES), set(CATEGORIES),
+                            Multipliers(cutoff=mult[0], neighbourhood=mult[1]))
+
+
+COUNTS: dict = {}
 
 
 def parse_ref(texts, mult):
@@ -409,8 +437,10 @@ def shipped_rules(ctx):
                                                  multipliers=Multipliers(cmul, nmul))
                 else:
                     hmm_detection._RULESETS.clear()  # pylint: disable=protected-access
+                    limited = [] if cmul == 2.0 else [rule.name for rule in ref_rules][3:40:4]
                     ruleset = hmm_detection.get_ruleset(SimpleNamespace(
-                        hmmdetection_strictness="loose", hmmdetection_limit_to_rules=[], hmmdetection_limit_to_categories=[],
+                        hmmdetection_strictness="loose", hmmdetection_limit_to_rules=limited,
+                        hmmdetection_limit_to_categories=[],
                         taxon="fungi", hmmdetection_fungal_cutoff_multiplier=cmul,
                         hmmdetection_fungal_neighbourhood_multiplier=nmul))
                     hmm_detection._RULESETS.clear()  # pylint: disable=protected-access
@@ -473,6 +503,7 @@ def run(ctx):
         case = gen_file(rng)
         n_corr = 12 if (i % 4 == 0) else 0
         ctx.guard("harness-or-crash", case, run_file_case, ctx, case, rng, n_corr)
+    ctx.count("op:create_rules-on-files", COUNTS.get("create_rules", 0))
 
 
 def replay(ctx, case):
